@@ -84,6 +84,11 @@ def make_case(case, ctx):
                     d = rnd.uniform(max(2.0, 1.4 * n), max(9.0, 1.4 * n + 4.0)) * dt
                     delta = rnd.uniform(0.02, 0.3) if n == 1 else rnd.uniform(-0.3, 0.3)
                     kernels.append((round(d, 7), round(round(d, 7) / math.sqrt(n + delta), 9)))
+                    if case.get('family') != 'uniform_kernel' and rnd.random() < 0.5:
+                        # a near twin: same order, a rate that differs by a fraction of 1 (two chains all the same)
+                        d2 = round(d + rnd.uniform(0.05, 0.45) * d * d / n, 7)
+                        if d2 != round(d, 7):
+                            kernels.append((d2, round(d2 / math.sqrt(n + delta), 9)))
             for e in edges:
                 if uniform:
                     if rnd.random() < pfrac or pfrac == 1.0:
